@@ -145,13 +145,81 @@ def cached_length_field(ctx, wb, wlin, llin):
     return True, "field `%s` is private and every constructor (%d) sets it to the length of `%s`" % (F, n, G)
 
 
+def _iter_sources(b, defs, op, depth=0):
+    """fields of self an iterator expression walks, in order: `self.f.iter()`, `(&self.f).into_iter()`, `a.chain(b)`"""
+    if depth > 6:
+        return None
+    l = mu.op_local(op)
+    cur = l
+    for _ in range(10):
+        d = mu.single_def(defs, cur) if cur is not None else None
+        if d is None:
+            return None
+        if d[1] == "term":
+            t = d[2]
+            cal = t["callee"]["def"] if t["callee"] else ""
+            if cal == "std::iter::Iterator::chain":
+                a = _iter_sources(b, defs, t["args"][0], depth + 1)
+                c = _iter_sources(b, defs, t["args"][1], depth + 1)
+                return (a + c) if a is not None and c is not None else None
+            if cal.endswith("<impl [T]>::iter") or cal.endswith("IntoIterator>::into_iter") or cal.endswith("as std::ops::Deref>::deref"):
+                cur = mu.op_local(t["args"][0])
+                continue
+            return None
+        rv = d[2]
+        if rv.get("k") == "ref":
+            fs = [p["n"] for p in rv["pl"]["p"] if isinstance(p, dict) and "f" in p and p.get("n")]
+            if rv["pl"]["l"] == 1 and fs:
+                return ["(*_1)." + fs[0]]
+            cur = rv["pl"]["l"] if not fs else None
+            continue
+        if rv.get("k") in ("use", "cast") and rv["op"].get("o") in ("copy", "move"):
+            pl = rv["op"]["pl"]
+            fs = [p["n"] for p in pl["p"] if isinstance(p, dict) and "f" in p and p.get("n")]
+            if pl["l"] == 1 and fs:
+                return ["(*_1)." + fs[0]]
+            cur = pl["l"]
+            continue
+        return None
+    return None
+
+
 def packet_emission_order(ctx, b):
-    """(callee, element type, iterated collection or None) for every nested write of a packet writer, in block order"""
+    """(callee, element type, iterated collection or None) for every nested write of a packet writer, in block order;
+    `for e in &self.f { e.write(..)? }` and `self.f.iter().try_for_each(|e| e.write(..))` (also over a chain) read alike"""
+    prog = ctx.prog
     a2 = ctx.whole.results[b.id]
     lps, irr, dom = loops.natural_loops(b)
     order = []
-    for e in sorted(a2.emits, key=lambda x: x["bi"]):
-        if e["kind"] != "nested":
+    by_bi = {}
+    for e in a2.emits:
+        if e["kind"] == "nested":
+            by_bi.setdefault(e["bi"], e)
+    defs = mu.defs_of(b)
+    for bi in a2.rpo():
+        bl = b.blocks[bi]
+        if bl["cleanup"]:
+            continue
+        t = bl["term"]
+        if t["t"] == "call" and t["callee"] and t["callee"]["def"] in ("std::iter::Iterator::try_for_each", "std::iter::Iterator::for_each") \
+                and len(t["args"]) == 2:
+            cl = mu.single_def(defs, mu.op_local(t["args"][1]))
+            cb = prog.bodies.get(cl[2]["def"]) if cl is not None and cl[1] != "term" and cl[2].get("ak") == "closure" else None
+            srcs = _iter_sources(b, defs, t["args"][0])
+            writes = []
+            if cb is not None:
+                for _, wt in mu.calls(cb, r"::(write_to|write_compressed_to)$"):
+                    im = wt["callee"].get("impl") or {}
+                    ty = (im.get("self") or "").split("::")[-1].split("<")[0]
+                    writes.append((wt["callee"]["name"], ty))
+            if cb is None or srcs is None or len(writes) != 1:
+                order.append(("?", "closure at bb%d" % bi, None))
+            else:
+                for sname in srcs:
+                    order.append((writes[0][0], writes[0][1], sname))
+            continue
+        e = by_bi.get(bi)
+        if e is None:
             continue
         src = None
         for h, info in lps.items():
